@@ -113,7 +113,8 @@ contains
     real(c_double), intent(in) :: param_vals(num_vals, 3)
     real(c_double), intent(out) :: evaluated(dimension_, num_vals)
     ! Variables outside of signature.
-    integer(c_int) :: k, binom_val, index_, new_index
+    integer(c_int) :: k, index_, new_index
+    real(c_double) :: binom_val
     real(c_double) :: row_result(dimension_, num_vals)
 
     index_ = num_nodes
@@ -168,7 +169,8 @@ contains
     real(c_double), intent(in) :: param_vals(num_vals, 2)
     real(c_double), intent(out) :: evaluated(dimension_, num_vals)
     ! Variables outside of signature.
-    integer(c_int) :: k, binom_val, index_, new_index
+    integer(c_int) :: k, index_, new_index
+    real(c_double) :: binom_val
     real(c_double) :: row_result(dimension_, num_vals)
     real(c_double) :: lambda1_vals(num_vals)
 
